@@ -343,5 +343,6 @@ int main(int argc, char** argv) {
         return o.str() + "\n" + describe_common(c, opname);
     };
     h.fork_per_case = true;
+    h.persistent_child = true;     // a child serves cases until one ends abnormally (finish_now), then it is replaced
     return vf::pbt_main(argc, argv, h);
 }
